@@ -579,8 +579,8 @@ theorem sim_doCkDel (d d' : Db) (h : DbSim d d') (x : Nat) (ord : List Nat) :
     (doCkDel d x ord).2 = (doCkDel d' x ord).2 ∧
       DbSim (doCkDel d x ord).1 (doCkDel d' x ord).1 := by
   unfold doCkDel
-  rw [h.resolveOld_eq, h.st.cps]
-  cases resolveOld d' ord x with
+  rw [h.resolve_eq, h.st.cps]
+  cases resolve d' ord x with
   | none => exact ⟨rfl, h⟩
   | some i => exact ⟨rfl, h.upd (h.st.withCps _) h.eng⟩
 
